@@ -230,7 +230,10 @@ def execute(case):
       return obs, None
     try:
       back = eval(text, {'__builtins__': __builtins__})
-      obs['same'] = graphs.canon(back) == graphs.canon(v)
+      # "an equal value of the same type": values and types, not the sharing inside the value (one
+      # expression cannot express that two elements are the same object)
+      from harness.props import C20 as _c20v
+      obs['same'] = _c20v.expand(graphs.canon(back)) == _c20v.expand(graphs.canon(v))
     except Exception as e:
       obs['same'] = f'eval raised {type(e).__name__}: {e}'[:120]
     return obs, None
@@ -383,7 +386,7 @@ def nontrivial(case, real):
 
 def run(tier):
   return family.run_check(
-      'C12', tier, lean_module='C12', level='translation_validation', cases=cases, execute=execute, compare=compare,
+      'C12', tier, lean_module='C12', cases=cases, execute=execute, compare=compare,
       oracle=oracle, classify=lambda c, f: f.get('class'), nontrivial=nontrivial, widen=None,
       floor_nontrivial=0.3, time_budget=240 if tier == 'quick' else 1500,
       extra_coverage={'rule': 'random configurations (Config / Partial, ArgFactory inside Partial, tags on '
